@@ -203,15 +203,19 @@ class TensorLeaf(Node):
                 w = g.array().astype('float32' if dtype == 'float32' else 'float64')
                 wq = '(LArr %s)' % g.coq()
             else:
-                w = np.array([float(rng.choice([1, 2, 3, 4, 0.5, 0.25])) for _ in range(n)]).reshape(shape)
-                w = w.astype('float32' if dtype == 'float32' else 'float64')
+                menu = [1, 2, 3, 4, 0.5, 0.25] if wkind == 'array' else [1, -2, 3, -4, 0.5, -0.25]
+                if dtype.startswith('int'):
+                    menu = [1, 2, 3, 4]
+                w = np.array([float(rng.choice(menu)) for _ in range(n)]).reshape(shape)
+                w = w.astype(dtype if dtype in ('float32', 'int64', 'int32') else 'float64')
                 wq = '(LArr %s)' % qlist(w)
             kw['weighting'] = w
         self.space = odl.tensor_space(shape, **kw)
         self.src = 'odl.tensor_space(%r, %s)' % (tuple(shape), _kwsrc(kw))
         self.kw = kw
         zd = (shape == ())
-        self.coq = '(SLeaf (LTensor true %s %s %s))' % (C.b(zd), wq, expo(p))
+        blas = dtype in ('float32', 'float64', 'complex64', 'complex128')   # _BLAS_DTYPES
+        self.coq = '(SLeaf (LTensor %s %s %s %s))' % (C.b(blas), C.b(zd), wq, expo(p))
         self.desc = {'kind': 'tensor', 'shape': list(shape), 'dtype': dtype, 'weighting': wkind,
                      'exponent': str(p)}
         self.rtol = 1e-5 if dtype == 'float32' else 1e-10
@@ -477,6 +481,18 @@ def sp_cases(rng, tier):
     for p, wk in itertools.product(EXPOS, ['none', 'const', 'array']):
         node = TensorLeaf(rng, p, shape=(rng.randint(2, 6),), wkind=wk, dtype='float32')
         _add_ops(cs, rng, node, qt, 1, kinds=['int'])
+    # non-BLAS dtype (np.linalg.norm branch of _norm_default): integer spaces, incl. size 0
+    for p, wk, shape in itertools.product(EXPOS, ['none', 'const', 'array'], [(0,), (3,), (2, 2)]):
+        node = TensorLeaf(rng, p, shape=shape, wkind=wk, dtype='int64')
+        # int dtype x array weighting x finite p != 2: np.power(..., out=int array) raises
+        # (finding tensor-int-array-weighting-pnorm-raises, probed separately)
+        ops = ('inner',) if (wk == 'array' and p not in (2, INF)) else ('inner', 'norm', 'dist')
+        _add_ops(cs, rng, node, qt, 1, kinds=['int'], ops=ops)
+    # array weights are not checked for positivity: negative entries reach the
+    # 'norm_squared < 0 -> 0' compensation of ArrayWeighting.norm (exponent 2) and max(w|x|) (inf)
+    for p in (2, 2, 2, INF, INF):
+        node = TensorLeaf(rng, p, shape=(rng.randint(1, 5),), wkind='negarray')
+        _add_ops(cs, rng, node, qt, 2, kinds=['int', 'pyth'], ops=('inner', 'norm', 'dist'))
     # (2) size regimes (BLAS thresholds 100 / 50000 of _lincomb, tensordot above 50000 in _inner_default)
     bigs = [99, 100, 101, 50001] if not thorough else [99, 100, 101, 4999, 50000, 50001, 60000]
     for n in bigs:
@@ -810,6 +826,15 @@ def probes(rng, tier):
                                                  for sp in _walk(node.space)):
             continue
         probe_space(out, node.src, node.space, rng)
+    # complex product spaces (constant and array weights, nested)
+    for _ in range(6 if not thorough else 40):
+        p = rng.choice([1, 2, 2, INF, 3])
+        kids = [TensorLeaf(rng, 2 if p == 2 else rng.choice([1, 2, INF, 3]), dtype='complex128')
+                for _k in range(rng.randint(1, 3))]
+        if rng.random() < 0.4:
+            kids = [ProdNode(rng, 2 if p == 2 else rng.choice([1, 2, 3]), kids[:1] * 2 if p == 2 else kids[:1], power=False)] + kids[1:]
+        node = ProdNode(rng, p, kids)
+        probe_space(out, node.src, node.space, rng, cplx=True)
     # (5) the recorded findings, each reproduced on its own input
     def known(key, what, snippet):
         env = {}
@@ -852,6 +877,11 @@ def probes(rng, tier):
           "odl.ProductSpace(odl.rn(2), 2))\nx = ps.one()\ntry:\n    observed = (x.inner(x), x.norm())\n"
           "    ok = abs(observed[0] - 9.0) < 1e-6 and abs(observed[1] - 3.0) < 1e-6\n"
           "except AttributeError as e:\n    observed = repr(e); ok = False\n")
+    known('tensor-int-array-weighting-pnorm-raises',
+          'norm on an integer tensor space with array weighting and exponent 1 equals sum(w |x|)',
+          "import odl, numpy as np\nsp = odl.tensor_space(3, dtype='int64', weighting=np.array([1, 2, 3]), exponent=1)\n"
+          "x = sp.element([2, 3, -1])\ntry:\n    observed = x.norm()\n    ok = observed == 11.0\n"
+          "except Exception as e:\n    observed = repr(e); ok = False\n")
     known('discr-bdry-fraction-isclose-snap',
           'boundary fraction 1.000002 (inside the np.isclose band): ||one||^2 == volume',
           "import odl, numpy as np\npart = odl.RectPartition(odl.IntervalProd(0, 4 + 0.5 + 0.5 * 1.000004), "
